@@ -60,6 +60,10 @@ CHECKS = {
   "stateless exhaustive exploration of all call/scribble/operation sequences up to a depth bound, each replayed from fresh values in isolated processes; invariants (memory disjointness, unchanged sources and earlier results, constant probe battery) evaluated after every step",
   "All sequences to depth 3 (quick) / 4 (thorough) over 20 events: 10 constructor/accessor calls, 6 scribbles over previously returned values (exported setters, zeroing, raw bytes up to cap), 4 heavy operations. After every step: sources bit-identical, earlier results unchanged, new results equal the model and occupy fresh memory, and a 70-call probe battery on fixed arguments (receivers with different histories included) is byte-identical. Sharded over 16 processes so that package state is never shared between explorers.",
   "package state is observed behaviourally (probe battery) and through pointer ranges, not through a snapshot of package variables", "3 C19"),
+ "C20": (EX, "lattice+two-build",
+  "exhaustive enumeration of the corner lattice of the closed box for the dispatched vs portable multiply/square in one build, plus the quick enumerations of twelve other properties executed under both build configurations with digest comparison; dispatch established from the binaries",
+  "All 1024^2 (quick 243^2) lattice pairs and all L(K7) squares: assembly and portable results both equal math/big and both stay within the Multiply representation bound; the whole-library enumerations of C01,C02,C04-C10,C13,C16,C17 are re-run by a -tags purego binary built from the same tree, must be violation-free and must produce the same order-independent digest of value observations as the default build; nm/objdump confirm that the default build really runs the MULQ assembly and the purego build does not.",
+  "math/big; lattice corners stand for the box; the two binaries are built from the same tree by ./check", "3 C20"),
  "C16": (EX, "lattice", "exhaustive enumeration of (u,v) grids and of all pairs of field-alphabet forms against an Euler-criterion/ModSqrt oracle",
   "All (u,v) in [0,256)^2, all ordered pairs of forms of alphabet F, lattice corners, with the receiver aliased to u, to v, to neither, and u,v the same pointer; all four contract classes counted.",
   "math/big", "3 C16"),
@@ -71,7 +75,6 @@ CHECKS = {
 NOT_YET = {
  "C03": "check under construction (leakage-trace self-composition); not claimed yet",
  "C18": "check under construction (controlled scheduler); not claimed yet",
- "C20": "check under construction; not claimed yet",
 }
 
 def main():
